@@ -106,6 +106,16 @@ CHECKS: dict[str, dict[str, str]] = {
         "technique": "TLA+ BIP341 specification model-checked with TLC on small trees; recorded outputs/control blocks and altered proofs validated as traces",
         "design_ref": "DESIGN.md section 4 C12",
     },
+    "C18": {
+        "text": ("TLC model-checks the change-or-fee decision (Accounting.Fund) over small parameters for conservation, rate paid on the final size, no dust "
+                 "change, honest refusal, bounded overpayment and monotonicity. Recorded from the code and recomputed by TLC: size/weight/vsize of transactions "
+                 "and blocks on both sides of every CompactSize boundary (from the wire grammar), input_weight, fee_from_vsize and package_fee, BTC/sat and "
+                 "sat/vB/sat/kvB quotes in every spelling under several ambient decimal contexts, Core's dust threshold, build_psbt with the input value swept "
+                 "across each decision boundary for every input script type and change script (the estimate re-derived from the specification's per-type spend "
+                 "sizes), and the estimate against what the library's signer and finalizer emit for every signable type and taproot sighash type."),
+        "technique": "TLA+ accounting specification model-checked with TLC; recorded size/fee/conversion/funding/signing events validated as traces against it",
+        "design_ref": "DESIGN.md section 4 C18",
+    },
     "C19": {
         "text": ("The outcome alphabet of every call (parser: returned|refused; predicate: true|false; consumer: returned|refused) and the caller's-stream "
                  "reader (StreamSession: FIFO exactly-once delivery, position on an object boundary, `missing` exact, rewind on incomplete) are TLA+ "
